@@ -32,6 +32,7 @@ const (
 	Roaming              // fd00::/16 roaming, outside internal
 	ContinentA           // geo-marked, all inside one continent prefix (fd10::/12)
 	ContinentB           // geo-marked, all inside another continent prefix (fd40::/12)
+	SameLabel            // geo-marked, all with the same derived one-byte switch label (42)
 )
 
 var (
@@ -59,6 +60,8 @@ func kindName(k Kind) string {
 		return "routable"
 	case Privacy:
 		return "privacy"
+	case SameLabel:
+		return "same-label"
 	case ContinentA:
 		return "continent-a"
 	case ContinentB:
@@ -74,6 +77,9 @@ func accept(k Kind, ip netip.Addr) bool {
 		return m.GetAddressType(ip) == m.TypeGeoMarked
 	case Privacy:
 		return m.GetAddressType(ip) == m.TypePrivacy
+	case SameLabel:
+		l, ok := m.DeriveSwitchLabelFromIP(ip)
+		return m.GetAddressType(ip) == m.TypeGeoMarked && ok && l == 42
 	case ContinentA:
 		return m.GetAddressType(ip) == m.TypeGeoMarked && continentA.Contains(ip)
 	case ContinentB:
